@@ -37,6 +37,8 @@ def twin_pool():
         P.Implies(P.Mu(0, p0), p0),
         P.App(P.App(a, f0), P.MetaVar(0)),
         P.Implies(P.neg(a), P.Implies(a, P.bot())),
+        # a metavariable whose only constraint is a list of application-context holes
+        P.Implies(P.MetaVar(3, app_ctx_holes=(P.EVar(1),)), P.App(a, P.MetaVar(3, app_ctx_holes=(P.EVar(1),)))),
     ]
 
 
